@@ -14,7 +14,9 @@ META = dict(
     trusted="z3; MIP stub contract; that CBC and GLPK return optimal 0/1 solutions of what they are given (tolerances vs the 0.9 threshold are outside the claim)",
     bounds=dict(quick="abstract pair values on (1,1),(2,1),(2,2),(1,1,1),(0,2); best and soft; 3 back-end configurations",
                 thorough="+ (3,2),(2,1,1),(3,1)"),
-    outside="the solvers' own correctness and numerical tolerances; medium-size continua",
+    outside="the solvers' own correctness and numerical tolerances; continua beyond the symbolic shapes - anything that only happens above some number of candidates (a threshold, a "
+            "reordering) is outside the solver claim and covered only by a concrete cross-check on the real build, run with every check and labelled as a test: continua with "
+            "400-2400 candidate unitary alignments (3x14, 2x40, 4x6 units), best and soft, CBC and the GLPK fallback, partition / cover and disorder against an independent MILP over all tuples",
     stubs=["cvxpy/CBC/GLPK = contract stub recording solver choice, objective, constraint rows", "import cylp = succeeds / ImportError",
            "first solve() raising cvxpy.SolverError (configuration)"],
     assumptions=["pair dissimilarities symmetric and >= 0", "delta_empty > 0"],
@@ -91,7 +93,21 @@ def harness(cfg, ns):
 _EXACT_SEARCH = {}
 
 
+def real_checks(tier):
+    """concrete cross-check beyond the solver bound: continua with hundreds to thousands of candidate unitary alignments on the real build, both
+    back-ends, best and soft: partition / cover, and the disorder of each back-end against an independent MILP (scipy / HiGHS) over all tuples"""
+    import os
+    return [dict(kind="large", name="best / soft alignment of continua with 500-3000 candidates: partition / cover and independent optimum under CBC and under the GLPK fallback",
+                 seed=int(os.environ.get("VERIF_SEED", "0") or 0))]
+
+
 def replay(case):
+    if case.get("kind") == "large":
+        cases = pipeline.large_cases(case.get("seed", 0))
+        r = pipeline.real_medium_check(dict(cases=cases), mode="best", backends=("cbc", "glpk_import"))
+        if not r.get("reproduced"):
+            r = pipeline.real_medium_check(dict(cases=cases), mode="soft", backends=("cbc", "glpk_import"))
+        return r
     if "mip-variable-declared-boolean" in str(case.get("_obligation", "")):
         # a relaxed variable shows where the LP relaxation is fractional: odd cycles among three annotators (both modes, both back-ends)
         r = pipeline.real_medium_check(dict(cases=pipeline.odd_cycle_cases()), mode="soft", backends=("cbc", "glpk_import"))
